@@ -48,7 +48,7 @@ def plan(tier, prop):
                             "mc_boot", "mc_boot_already_booted",
                             "mc_boot_failed", "max_size_image",
                             "short_last_block", "send_error_reached_caller",
-                            "deprecated_dimensions", "zero_tail_image"],
+                            "deprecated_dimensions", "zero_tail_image", "sv_boot_delay_override"],
         "knob_ranges": {"image_bytes": "512..32764 (word multiples) or "
                         "bundled scamp.boot", "boots": "1-5",
                         "boot_delay": [0.0, 0.01, 0.05],
@@ -231,8 +231,7 @@ class BootEngine(object):
         if mode in (2, 3):
             fields = [f for f in self.sv["fields"].values()
                       if f.length == 1 and f.kind != "s" and
-                      f.name not in ("unix_time", "boot_sig", "root_chip",
-                                     "boot_delay") and
+                      f.name not in ("unix_time", "boot_sig", "root_chip") and
                       not f.name.startswith("__PAD")]
             for _ in range(1 + t.draw(4)):
                 f = fields[t.draw(len(fields))]
@@ -278,7 +277,11 @@ class BootEngine(object):
         kwargs = {}
         intended = dict(opts)
         how = t.draw(3)
-        dotted = [k for k in opts if "." in k]
+        # names that cannot be keyword arguments: dotted ones, and the system
+        # variable that shares its name with boot()'s own boot_delay argument
+        dotted = [k for k in opts if "." in k or k == "boot_delay"]
+        if "boot_delay" in opts:
+            w.probe("sv_boot_delay_override")
         if how == 0 and not dotted:
             kwargs.update(opts)
         else:
@@ -288,7 +291,7 @@ class BootEngine(object):
                 w.probe("dict_reused")
                 d = self.caller_dict
                 intended = dict(self.caller_dict_intended)
-                extra = {k: v for k, v in opts.items() if "." not in k}
+                extra = {k: v for k, v in opts.items() if k not in dotted}
                 if t.draw(2):
                     kwargs.update(extra)
                     intended.update(extra)
@@ -297,7 +300,7 @@ class BootEngine(object):
                 half = sorted(opts)[:len(opts) // 2 + 1] if how == 1 else \
                     sorted(opts)
                 for k in sorted(opts):
-                    if k in half or "." in k:
+                    if k in half or k in dotted:
                         d[k] = opts[k]
                     else:
                         kwargs[k] = opts[k]
